@@ -23,13 +23,15 @@ def keyedParts? (e : SExp) : Option (List (List (Option Nat))) := do
   (← e.toList?).mapM fun p => do (← p.toList?).mapM optNat?
 
 /-- `(sort-values ((key|none …) …) (divisions…) asc naLast k stages)` ↦ per output partition `((key|none id) …)`;
-    `k = 0` selects `SimpleShuffle` -/
+    `k = 0` selects `SimpleShuffle`; an empty division list selects the presorted shortcut (every partition sorted
+    where it is) -/
 def hSortValues : Handler := handler fun args =>
   match args with
   | [ps, d, asc, nal, k, st] => do
     let parts := numberKeyed (← keyedParts? ps)
     let d ← d.toNats?; let asc ← asc.toBool?; let nal ← nal.toBool?; let k ← k.toNat?; let st ← st.toNat?
-    let out := if k = 0 then sortValuesSimple (·.1) d asc nal parts else sortValuesTasks (·.1) d asc nal k st parts
+    let out := if d.isEmpty then sortValuesPresorted (sortPart (·.1) asc nal) parts
+      else if k = 0 then sortValuesSimple (·.1) d asc nal parts else sortValuesTasks (·.1) d asc nal k st parts
     pure (.list (out.map fun p => .list (p.map fun r => .list [SExp.ofOptNat r.1, SExp.ofNat r.2])))
   | _ => none
 
